@@ -138,6 +138,12 @@ func c12Once(c *mon.Ctx) {
 	if len(names) != len(sites) {
 		c.V("count-mismatch", fmt.Sprintf("registry has %d lints, the lint tree has %d registration call sites", len(names), len(sites)), "", nil, nil)
 	}
+	c12Invariants(c, g, names, inReg, "default build")
+	c.R.Sample(4, map[string]any{"census_sites": len(sites), "registry": len(names), "dirs": dirs, "first_sites": sites[:3]})
+}
+
+// c12Invariants: the lookup tables of a registry agree with each other and every lint is well-formed.
+func c12Invariants(c *mon.Ctx, g lint.Registry, names []string, inReg map[string]bool, when string) {
 	// (2) names unique across kinds, sorted
 	if !sort.StringsAreSorted(names) {
 		c.V("names-not-sorted", "Names() is not sorted", "", nil, nil)
@@ -272,14 +278,86 @@ func c12Once(c *mon.Ctx) {
 			c.V("kind-names|"+k.String(), fmt.Sprintf("%s lookup Names() has %d entries (sorted=%v), Lints() %d", k, len(l), sort.StringsAreSorted(l), len(byKindList[k])), "", nil, nil)
 		}
 	}
-	c.R.Sample(4, map[string]any{"census_sites": len(sites), "registry": len(names), "dirs": dirs, "first_sites": sites[:3]})
+	c.R.Count("invariant_passes", 1)
+	_ = when
+}
+
+// c12Solo (own process): "after any addition". Lints of every kind are added through the public API (also the
+// deprecated RegisterLint); after each addition the lookup tables must still agree and duplicates must be refused.
+func c12Solo(c *mon.Ctx) {
+	g := lint.GlobalRegistry()
+	pass := func(when string) {
+		names := g.Names()
+		in := map[string]bool{}
+		for _, n := range names {
+			in[n] = true
+		}
+		c12Invariants(c, g, names, in, when)
+	}
+	before := len(g.Names())
+	adds := []func(){
+		func() {
+			lint.RegisterOcspResponseLint(&lint.OcspResponseLint{LintMetadata: lint.LintMetadata{Name: "e_verif_c12_ocsp", Description: "verif addition", Citation: "verif", Source: lint.RFC8813}, Lint: func() lint.OcspResponseLintInterface { return probeOCSP{} }})
+		},
+		func() {
+			lint.RegisterRevocationListLint(&lint.RevocationListLint{LintMetadata: lint.LintMetadata{Name: "w_verif_c12_crl", Description: "verif addition", Citation: "verif", Source: lint.AppleRootStorePolicy}, Lint: func() lint.RevocationListLintInterface { return probeCRL{} }})
+		},
+		func() {
+			lint.RegisterCertificateLint(&lint.CertificateLint{LintMetadata: lint.LintMetadata{Name: "n_verif_c12_cert", Description: "verif addition", Citation: "verif", Source: lint.RFC6960}, Lint: func() lint.CertificateLintInterface { return probeCert{} }})
+		},
+		func() {
+			lint.RegisterLint(&lint.Lint{Name: "e_verif_c12_legacy", Description: "verif addition", Citation: "verif", Source: lint.RFC3279, Lint: func() lint.LintInterface { return probeCert{} }})
+		},
+		func() { // sorts before every existing name
+			lint.RegisterCertificateLint(&lint.CertificateLint{LintMetadata: lint.LintMetadata{Name: "e_000_verif_c12_first", Description: "verif addition", Citation: "verif", Source: lint.Community}, Lint: func() lint.CertificateLintInterface { return probeCert{} }})
+		},
+	}
+	for k, a := range adds {
+		a()
+		pass(fmt.Sprintf("after addition %d", k+1))
+		if len(g.Names()) != before+k+1 {
+			c.V("addition-not-listed", fmt.Sprintf("after %d additions Names() has %d entries, want %d", k+1, len(g.Names()), before+k+1), "", nil, nil)
+		}
+	}
+	// a name registered once must be refused a second time, whatever the kind
+	for _, dup := range []func(){
+		func() {
+			lint.RegisterCertificateLint(&lint.CertificateLint{LintMetadata: lint.LintMetadata{Name: "e_verif_c12_ocsp", Description: "dup", Source: lint.Community}, Lint: func() lint.CertificateLintInterface { return probeCert{} }})
+		},
+		func() {
+			lint.RegisterOcspResponseLint(&lint.OcspResponseLint{LintMetadata: lint.LintMetadata{Name: "e_verif_c12_ocsp", Description: "dup", Source: lint.Community}, Lint: func() lint.OcspResponseLintInterface { return probeOCSP{} }})
+		},
+	} {
+		func() {
+			defer func() { _ = recover() }() // Register* panics on a duplicate: that is the documented refusal
+			dup()
+		}()
+	}
+	n := 0
+	for _, x := range g.Names() {
+		if x == "e_verif_c12_ocsp" {
+			n++
+		}
+	}
+	found := 0
+	if g.CertificateLints().ByName("e_verif_c12_ocsp") != nil {
+		found++
+	}
+	if g.OcspResponseLints().ByName("e_verif_c12_ocsp") != nil {
+		found++
+	}
+	if n != 1 || found != 1 {
+		c.V("duplicate-registration-accepted", fmt.Sprintf("registering the name e_verif_c12_ocsp again left it listed %d times and answered by %d kinds", n, found), "", nil, nil)
+	}
+	pass("after refused duplicates")
 }
 
 func init() {
 	mon.Register(&mon.Check{
 		ID:          "C12",
+		Solo:        c12Solo,
 		Procs:       func(c *mon.Ctx) int { return 1 },
-		Rule:        "exhaustive over the live registry of a default build (the harness imports only the zlint root package, lint and util): every registered lint is checked for naming, description, source, implementation, dates, and for agreement of lookup by name / by source / listing / source list; the expected set is a syntactic census (go/parser) of lint.Register* call sites under v3/lints of the tree under test. evaluations = census sites + lints checked; distinct_nontrivial = lints checked.",
+		Rule:        "exhaustive over the live registry of a default build (the harness imports only the zlint root package, lint and util): every registered lint is checked for naming, description, source, implementation, dates, and for agreement of lookup by name / by source / listing / source list; the expected set is a syntactic census (go/parser) of lint.Register* call sites under v3/lints of the tree under test. In an own process lints of every kind are then added through the public API (incl. the deprecated RegisterLint, a name sorting first, refused duplicates) and the same invariants re-checked after each addition. evaluations = census sites + lints checked; distinct_nontrivial = lints checked.",
 		Assumptions: []string{"the census recognises registrations written as lint.Register*Lint(...) with a literal Name, the form every lint file uses"},
 		Setup:       setupCommon,
 		Once:        c12Once,
@@ -291,6 +369,9 @@ func init() {
 			var gates []string
 			if r.SetSize("lints_checked") < 100 {
 				gates = append(gates, "fewer than 100 lints checked")
+			}
+			if r.Counters["invariant_passes"] < 7 {
+				gates = append(gates, "the additions scenario (own process) did not complete")
 			}
 			if n, _ := r.Notes["census_sites"].(float64); n < 100 {
 				gates = append(gates, "census found fewer than 100 registration sites")
